@@ -27,6 +27,7 @@ MANIFEST = dict(
 
 CODE = dict(vps=dict(a=0xAC1, b=0xAC2, u=0x123), p1=dict(a=0x4301, b=0x4302, u=0x1234), p2=dict(a=0x1AC1, b=0x1AC2, u=0x5123),
             xds=dict(a="NETA", b="NETB", u="UVW"))
+CALL = {"a": "WAAA", "b": "KBBB", "0": ""}
 NUID = {"A": 193, "B": 194, "0": 0}
 PIL = dict(a=0x12345, b=0x2468A, u=0x3F0F0)          # any 20-bit label
 TIME = dict(a=(0x45000, 0x123456, 2), b=(0x51603, 0x213243, -7), u=(0x53735, 0x235959, 0))
@@ -41,6 +42,8 @@ def bcd(x, n):
 def line_of(act):
     if act["a"] == "Refill":
         return "T"
+    if act["a"] == "Call":
+        return "L %s" % CALL[act["v"]]
     if act["a"] == "Wss":
         return "W %02x %02x" % WSS[act["w"]]
     c, v = act["c"], act["v"]
@@ -64,6 +67,7 @@ def expect(st, xmap):
             if c == "xds":
                 o["nuid_sym"] = e["nuid"]
                 o["name"] = CODE[c][v]
+                o["call"] = CALL[e.get("call", "0")]
             else:
                 o["nuid"] = NUID[e["nuid"]]
                 o[{"vps": "cni_vps", "p1": "cni_8301", "p2": "cni_8302"}[c]] = CODE[c][v]
